@@ -500,7 +500,7 @@ func c14Shrink(raw json.RawMessage) []json.RawMessage {
 func init() {
 	Register(&Check{
 		ID: "C14", Level: "exploration",
-		QuickRuns: 12000, ThoroughRuns: 600000,
+		QuickRuns: 24000, ThoroughRuns: 600000,
 		Gen: c14Gen, Exec: c14Exec, Shrink: c14Shrink,
 		Rule: "two families. observe: a session of 2-7 commands (Run, Parse + RunAfterParsed x2, incl. failing programs) executed twice, with and without bursts of read-only API calls (GetDetailText x2, GetAsmText, Ret.ToString/ToRepr/ToJSON, GetCurSeed, IsCalculateExists, GetErrorText) injected 0-3 times after each command; all later outcomes, variables and generator bytes must be identical; GetDetailText twice in a row returns the same text and leaves the generator alone. arith (input-driven for the text clause): expressions of 1-6 items (dice terms of every family from the C04 grid, integer literals, multi-byte variables) joined by + - * with parentheses, blanks, tabs and line breaks, under a real stream or forced faces; for every dice term the annotation found at the term's byte range must carry the rulebook total of the faces the ledger recorded while that instruction ran; the process text with every [..] group removed must evaluate on a fresh VM to the reported result. distinct = distinct sessions / expressions; non-trivial = at least 2 commands / at least one dice term",
 		Real: []string{"detail-span bookkeeping in the VM, makeDetailStr, GetDetailText cache, every observer of the public API"},
